@@ -108,7 +108,8 @@ func (u *controlUnit) handleRunner(ctx *risc.Context, cycle int, pushed int, run
 	hazards, _ := ctx.IsDataHazard3(runner.Runner)
 	if len(hazards) == 0 {
 		u.pushRunner(ctx, cycle, &runner)
-		return true, false
+		// A return ends the run: nothing younger is issued behind it
+		return true, runner.Runner.InstructionType() == risc.Ret
 	} else {
 		log.Infoi(ctx, "CU", runner.Runner.InstructionType(), runner.Pc, "data hazard: reason=%v", hazards)
 		u.blockedDataHazard++
